@@ -1373,6 +1373,9 @@ func c15CollectBlocks(into map[types.Hash]bool, bs []*nom.AccountBlock) {
 }
 
 func runC15(r *simrt.Run) {
+	// peer handlers are real goroutines: a busy node lock is waited for on the simulated clock, so that a
+	// handler stuck behind a lock shows up as a stall after 30 simulated seconds instead of freezing the run
+	r.DurableLockWaits(600 * time.Second)
 	t := r.T
 	mode := nomsim.SporkMode(t.Choose(3))
 	w := nomsim.NewWorld(r, nomsim.MockGenesis(mode))
